@@ -204,6 +204,10 @@ func (ex *Exec) evalIdent(name string, env *Env) TV {
 	if gi := ex.literalGlobal(env.fr, name); gi != nil {
 		return TV{LitMapV{gi}, gi.g.Type().(*types.Pointer).Elem()}
 	}
+	if g := ex.pkgGlobal(env.fr, name); g != nil {
+		gt := g.Type().(*types.Pointer).Elem()
+		return TV{ex.loadGlobal(env.st, GlobalPtr{G: g}, gt), gt}
+	}
 	// package-level constants of the function's package
 	if env.fr != nil {
 		if tv, ok := ex.pkgConst(env.fr.fn, "", name); ok {
@@ -826,4 +830,20 @@ func (ex *Exec) literalGlobal(fr *Frame, name string) *globalInit {
 	}
 	ex.assumedUsed["init-only:"+g.Name()+" (checked: no store/update/delete outside init)"] = true
 	return gi
+}
+
+// pkgGlobal finds a package-level variable of the frame's package.
+func (ex *Exec) pkgGlobal(fr *Frame, name string) *ssa.Global {
+	if fr == nil || fr.fn == nil {
+		return nil
+	}
+	f := fr.fn
+	for f != nil && f.Pkg == nil {
+		f = f.Parent()
+	}
+	if f == nil {
+		return nil
+	}
+	g, _ := f.Pkg.Members[name].(*ssa.Global)
+	return g
 }
